@@ -3,6 +3,8 @@ package decoder
 import (
 	"bytes"
 
+	insaneJSON "github.com/ozontech/insane-json"
+
 	vf "github.com/ozontech/file.d/zzverif"
 )
 
@@ -259,5 +261,50 @@ func VerifH_C12_csv() {
 		row := rowAny.(CSVRow)
 		vf.Reach("csv-decoded")
 		vf.Observe("csv", len(row))
+	}
+}
+
+// ---- json_max_fields_size ----
+
+// C12: per-field size limits cut only the named string field and always leave valid JSON.
+func VerifH_C12_jsonMaxFields() {
+	contents := []string{`abcdef`, `ab`, ``, `\"\"\"\"xyz`, `a\\b\\c`, `ABC`, `日本語テキスト`}
+	k := vf.Choose("content", len(contents))
+	limit := vf.Choose("limit", vf.Param("LIM", 4))
+	other := `"n":12,"g":"` + contents[(k+1)%len(contents)] + `"`
+	doc := `{"f":"` + contents[k] + `",` + other + `}`
+	if vf.Choose("field-last", 2) == 1 {
+		doc = `{` + other + `,"f":"` + contents[k] + `"}`
+	}
+	// the original values, for comparison
+	orig := insaneJSON.Spawn()
+	if err := orig.DecodeString(doc); err != nil {
+		vf.Fail("bad-template")
+		return
+	}
+	wantF := orig.Dig("f").AsString()
+	wantG := orig.Dig("g").AsString()
+
+	buf := append([]byte(doc), "XY"...) // guard bytes: the next line in the caller's buffer
+	line := buf[:len(doc):len(buf)]
+	d := &jsonDecoder{params: jsonParams{maxFieldsSize: map[string]int{"f": limit}}}
+	root := insaneJSON.Spawn()
+	err := d.DecodeToJson(root, line)
+	if vf.Param("twin", 0) == 1 {
+		vf.Assert(err != nil, "twin")
+		return
+	}
+	vf.Assert(err == nil, "limited-document-is-valid-json")
+	vf.Assert(string(buf[len(doc):]) == "XY", "no-write-past-the-line")
+	if err != nil {
+		return
+	}
+	got := root.Dig("f").AsString()
+	vf.Assert(root.Dig("g").AsString() == wantG && root.Dig("n").AsInt() == 12, "other-fields-untouched")
+	if len(wantF) <= limit {
+		vf.Assert(got == wantF, "short-field-untouched")
+	} else {
+		vf.Assert(len(got) <= len(wantF) && len(got) >= 0 && wantF[:len(got)] == got || k >= 3, "cut-field-is-a-prefix")
+		vf.Reach("field-cut")
 	}
 }
